@@ -28,6 +28,45 @@ theorem fee_table_tie (c : Cmp) (v : FeeValue) :
   cases c <;> cases u <;>
     simp [toG, feeAssertedMax, Generated.feeAssertedMax, feeUniv, Generated.MAX_UINT64, MAX_UINT64]
 
+/-- `_get_asserted_int_values` as translated from the Python AST agrees with the model on every duplicate-free universal
+    set (the Python removes the first occurrence of the compared value for `!=`; the model filters) -/
+theorem int_asserted_tie (c : Cmp) (n : Nat) (U : List Nat) (hU : U.Nodup) :
+    assertedIntValues c n U = Generated.intAssertedValues c n U := by
+  cases c <;> simp only [assertedIntValues, Generated.intAssertedValues]
+  case neq =>
+    by_cases hm : n ∈ U
+    · have : U.contains n = true := by simpa using hm
+      simp only [this, if_true]
+      rw [List.Nodup.erase_eq_filter hU]
+      simp [bne]
+    · have : U.contains n = false := by simpa using hm
+      simp only [this]
+      simp only [Bool.false_eq_true, if_false]
+      apply List.filter_eq_self.mpr
+      intro a ha
+      simp only [bne_iff_ne, ne_eq]
+      intro e; subst e; exact hm ha
+  all_goals simp
+
+/-- the universal sets the analysis passes to it are duplicate-free -/
+theorem int_universes_nodup : sizesU.Nodup ∧ indicesU.Nodup := by decide +kernel
+
+/-- the address lattice operations of the model are the functions translated on this run from AddrFields._union /
+    _intersection (with its `_universal_set()` / `_null_set()` translated in place) -/
+theorem addr_union_tie (a b : AddrSet) : addrUnion a b = Generated.addrUnion a b := by
+  simp only [addrUnion, Generated.addrUnion, addrUniv, addrNull, OSet.ofList, List.foldr, OSet.insert]
+  rfl
+
+theorem addr_inter_tie (a b : AddrSet) : addrInter a b = Generated.addrInter a b := by
+  simp only [addrInter, Generated.addrInter, addrUniv, addrNull, OSet.ofList, List.foldr, OSet.insert]
+  rfl
+
+/-- the integer-set and transaction-kind lattices use Python's `|` and `&` -/
+theorem set_ops_tie (a b : NatSet) :
+    natSetDomain.union a b = Generated.intUnion a b ∧ natSetDomain.inter a b = Generated.intInter a b ∧
+    natSetDomain.union a b = Generated.txnTypeUnion a b ∧ natSetDomain.inter a b = Generated.txnTypeInter a b :=
+  ⟨rfl, rfl, rfl, rfl⟩
+
 theorem consts_tie :
     Generated.MAX_TRANSACTION_COST = MAX_TRANSACTION_COST ∧ Generated.MAX_UINT64 = MAX_UINT64 ∧
     Generated.MAX_GROUP_SIZE = MAX_GROUP_SIZE ∧ Generated.ZERO_ADDRESS = ZERO_ADDRESS ∧
